@@ -31,7 +31,7 @@ BAG = {
     # payload passthru mode: publishers, callers and callees that announced the feature or did not
     "ppt": '<<"join","join","join","reg","reg","call","call","call","answer","answer","answer","pub","pub","sub","sub","leave","adv","cancel">>',
     # wamp.session.modify_details: identity details change or go; then filters, disclosure, kills, the meta API
-    "mod": '<<"join","join","sub","sub","reg","mmod","mmod","mmod","pub","pub","call","msess","msess","kill","leave">>',
+    "mod": '<<"join","join","sub","sub","reg","mmod","mmod","mmod","pub","pub","call","msess","msess","kill1","leave">>',
     # realms with event history: subscriptions that exist without subscribers, watched through the meta API
     "histmeta": '<<"join","join","wsub","sub","sub","sub","unsub","msub","msub","pub","leave","hist">>',
     "killx": '<<"join","join","sub","wsub","tst","tst","kill","kill","kill","leave","msess","pub">>',
